@@ -97,6 +97,9 @@ def gen_cfg(r, i):
            "fault_kind": "interrupt" if i % 3 == 1 else "exception"}
     if cfg["auto_pre"] == "refit":
         cfg["route"] = "auto"
+    # a periodic parameter: the default preconditioning of the kernel samplers then wraps proposals across the seam (the resumed
+    # object, rebuilt from the stored configuration, must precondition in the same way)
+    cfg["periodic"] = bool(i % 3 == 0)
     m = i % 5
     if m == 1:
         cfg["n_final_samples"] = int(cfg["n_samples"] // 2)       # the forced final payload holds a smaller population
@@ -113,7 +116,8 @@ def one_run(cfg, path, fault_at=None, fault_prior_at=None, log=None):
     target = smcrun.Target(cfg["dims"], width=cfg["like_width"])
     target.fault_at, target.fault_prior_at = fault_at, fault_prior_at
     target.fault_exc = smcrun.FaultInterrupt if cfg.get("fault_kind") == "interrupt" else smcrun.Fault
-    a = al.make_aspire(target, dims=cfg["dims"], flow_seed=cfg["seed"] % 1000)
+    extra = {"periodic_parameters": ["p0"]} if cfg.get("periodic") else {}
+    a = al.make_aspire(target, dims=cfg["dims"], flow_seed=cfg["seed"] % 1000, **extra)
     pre = cfg.get("auto_pre", "none") if cfg["route"] == "auto" else "none"
     if pre not in ("fit", "refit"):
         a.fit(al.training_samples(cfg["dims"], cfg["seed"]))
